@@ -59,7 +59,7 @@ impl Property for C20 {
         "C20"
     }
     fn rule(&self) -> String {
-        "histories of 0..4 earlier uses of one tx3_cardano::Compiler instance - resolutions through resolve_tx (templates 'pay' with 0..4 extra outputs, with and without min_utxo, with stores that make them succeed, fail at once, or fail in a later pass just below the minimum), direct compile() calls, direct evaluations of compiler operators and, in a fifth of the cases, a resolution of the target's twin (same body, another witness set) - followed by a target template (min_utxo on random output indices, an optional output that is dropped from the body in a third of the cases, incl. indices beyond the outputs of the previous transaction; in a third of the cases handed to resolve_tx with its arguments already applied, so that no parameter is left, and an empty or the same argument map); the same target is resolved on a fresh, identically configured instance against the same single-UTxO store. Oracle: outcome (payload bytes + hash + fee, or error kind, or panic site) on the used instance = outcome on the fresh one; latest_tx_body before the target is logged as the candidate leak. Non-trivial: history length >= 1 and the target uses min_utxo; distinct = distinct (history, target, pparams).".into()
+        "histories of 0..4 earlier uses of one tx3_cardano::Compiler instance - resolutions through resolve_tx (templates 'pay' with 0..4 extra outputs, with and without min_utxo, with stores that make them succeed, fail at once, or fail in a later pass just below the minimum), direct compile() calls, direct evaluations of compiler operators and, in a fifth of the cases, a resolution of the target's twin (same body, another witness set) - followed by a target template (min_utxo on random output indices, an optional output that is dropped from the body in a third of the cases, incl. indices beyond the outputs of the previous transaction; in a third of the cases handed to resolve_tx with its arguments already applied, so that no parameter is left, and an empty or the same argument map; in a sixth with the input UTxO and a fee applied as well - a settled template); the same target is resolved on a fresh, identically configured instance against the same single-UTxO store. Oracle: outcome (payload bytes + hash + fee, or error kind, or panic site) on the used instance = outcome on the fresh one; latest_tx_body before the target is logged as the candidate leak. Non-trivial: history length >= 1 and the target uses min_utxo; distinct = distinct (history, target, pparams).".into()
     }
     fn assumptions(&self) -> Vec<String> {
         vec!["single-UTxO input blocks and the same store contents for both runs, so that hash order cannot differ between them".into()]
@@ -71,7 +71,7 @@ impl Property for C20 {
         }
     }
     fn required_features(&self, _tier: Tier) -> Vec<String> {
-        ["history/len-0", "history/len-4", "history/with-failure", "history/direct-compile", "history/direct-compiler-ops", "history/failure-just-below-the-minimum", "history/twin-with-another-witness-set", "target/min_utxo", "target/index-beyond-previous-outputs", "target/min_utxo+dropped-optional-output", "target/tight-balance", "target/no-parameter-left", "outcome/ok", "state/latest_tx_body-set"].iter().map(|s| s.to_string()).collect()
+        ["history/len-0", "history/len-4", "history/with-failure", "history/direct-compile", "history/direct-compiler-ops", "history/failure-just-below-the-minimum", "history/twin-with-another-witness-set", "target/min_utxo", "target/index-beyond-previous-outputs", "target/min_utxo+dropped-optional-output", "target/tight-balance", "target/no-parameter-left", "target/arguments+inputs+fee-pre-applied", "outcome/ok", "state/latest_tx_body-set"].iter().map(|s| s.to_string()).collect()
     }
     fn run_case(&self, ctx: &mut Ctx, phase: &str, idx: u64, rng: &mut Rng) {
         let pp = PP { mainnet: rng.bool(), a: *rng.pick(&[44u64, 1, 100, 0]), b: *rng.pick(&[155_381u64, 0]), coins_per_utxo_byte: if rng.chance(1, 3) { rng.range(1, 40_000) as u64 } else { *rng.pick(&[4310u64, 1, 34482, 289, 290, 291]) }, extra_fees: *rng.pick(&[None, Some(0), Some(123_456)]), cost_models: vec![0, 1, 2], cost_salt: 0 };
@@ -207,6 +207,23 @@ impl Property for C20 {
                 if tx3_tir::reduce::find_params(&AnyTir::V1Beta0(target.clone())).is_empty() {
                     ctx.count("target/no-parameter-left");
                 }
+            }
+        }
+        // one time in six everything is applied by the caller beforehand - arguments, the input UTxO and a fee - so
+        // that resolve_tx receives a settled template (no parameter, no query, constant fee)
+        if target_form == "as-lowered" && rng.chance(1, 5) {
+            use tx3_tir::reduce::{apply_args, apply_fees, apply_inputs};
+            let utxos: std::collections::HashSet<tx3_tir::model::core::Utxo> = single_utxo_store(lovelace, 0, 0x77).into_iter().collect();
+            let fee = *rng.pick(&[0u64, 180_000, 300_000, 1_000_000]);
+            let settled = crate::panics::catch(|| -> Result<AnyTir, String> {
+                let t = apply_args(AnyTir::V1Beta0(lowered.clone()), &args(q)).map_err(|e| e.to_string())?;
+                let t = apply_inputs(t, &std::collections::BTreeMap::from([("source".to_string(), utxos.clone())])).map_err(|e| e.to_string())?;
+                apply_fees(t, fee).map_err(|e| e.to_string())
+            });
+            if let Ok(Ok(AnyTir::V1Beta0(t))) = settled {
+                target = t;
+                argmap = if rng.bool() { Default::default() } else { args(q) };
+                target_form = "arguments+inputs+fee-pre-applied";
             }
         }
         ctx.count(&format!("target/{target_form}"));
